@@ -19,7 +19,9 @@ TRUSTED = [
     "standard-library axioms); round-2/3 proofs reuse ParseProofs/{Spelling,Dispatch,ErrorSound,Chain,Actions,ActionsLoop,ActionsTop,UnparseProofs}.v "
     "of C08/C09/C10/C07/C02 (imported, unchanged)",
     "extraction: ExtrOcamlBasic only, no Extract Constant; OCaml driver ocaml/dynamic_driver.ml + common_parse/spec.ml",
-    "correspondence: vp/props/c18.py generators, harness/src/modes/dynamic.rs, multiset comparison of (value, hidden) candidates",
+    "correspondence: vp/props/c18.py generators, harness/src/modes/dynamic.rs, multiset comparison of (value, hidden) candidates; "
+    "stream `order`: LIST comparison against complete_model_ord (the model with the final stable sort; display orders and "
+    "help headings explicit in the case: (x-ord n), (x-heading h))",
     "modelled not verified: Parse/Build.v blocks of Command::_build_self and Parse/Valid.v assert_app (shared parser model), "
     "Vec::sort/dedup/retain of Rust core, str::starts_with, to_string_lossy on the ASCII '-'",
     "acceptance oracle: the real parser (Command::try_get_matches_from) run by the harness on the completed line",
@@ -28,14 +30,20 @@ ASSUMPTIONS = [
     "64-bit usize; OsStr = bytes (Unix); debug build (assert_app active inside Command::build)",
     "the command handed to complete() has not been built before (Built flag clear)",
     "no custom completers / value hints installed (path completion out of scope, current_dir = None)",
-    "the final stable sort by (tag, display order) is not modelled: candidate lists are compared as multisets",
+    "the final stable sort by (tag, display order) is modelled in Complete/EngineOrder.v (complete_model_ord; stream `order` compares "
+    "lists); the other streams compare multisets.  The tag of a VALUE candidate (arg.to_string()) is the abstract tag TArg id: the "
+    "rendered names of the arguments of one level are assumed pairwise different and different from the help headings; implicit "
+    "display orders (clap's next_display_order counter) and subcommand_help_heading are not modelled: stream `order` sets every "
+    "display order explicitly and leaves out lines through the generated `help` subcommand",
     "pos_index/count arithmetic is unbounded N in the model (bounded by the number of argv words in the code)",
 ]
 TECHNIQUE = ("Coq proof (totality incl. fuel, soundness, completeness of the engine model; simulation between the engine's shadow "
              "parse and the PARSER model's token loop along option prefixes and subcommand names; end-to-end acceptance of every "
-             "offered option/subcommand candidate by parse_top on whole lines; level correspondence) + extracted-model/implementation "
+             "offered option/subcommand candidate by parse_top on whole lines - round 4: lines with positional values, multi-valued "
+             "options, -o=v, per-level subcommand_precedence_over_arg and args_conflicts_with_subcommands, with the engine's pos_index "
+             "and valid_arg_found proved equal to the parser's counter and flag; level correspondence) + extracted-model/implementation "
              "correspondence")
-LEVEL_TEXT = ("Machine-checked theorems (Coq 8.16, 54 pinned, all closed under the global context) about a function-by-function "
+LEVEL_TEXT = ("Machine-checked theorems (Coq 8.16, 75 pinned, all closed under the global context) about a function-by-function "
               "model of clap_complete::engine::complete: no panic site is reachable and no fuel runs out for any command, argv "
               "and index (build_full's fuel proved sufficient); in state ValueDone every option/subcommand candidate extends the "
               "word and names an option/alias/subcommand of the level reached by the shadow parse; under assert_app's uniqueness "
@@ -56,14 +64,33 @@ LEVEL_TEXT = ("Machine-checked theorems (Coq 8.16, 54 pinned, all closed under t
               "values of the positional at pos_index (sound for plain words, complete for visible values, hidden ones offered "
               "unless a visible candidate is); after `--` the shadow parse reads no token as an option (C18_escaped_step) while "
               "the candidates are not restricted to positionals (C18_escape_only_positionals_refuted, outside the property).  "
+              "Round 4 (Complete/EngineItems.v, EngineWide.v; the model follows the repair of finding C18-args-conflict: shadow_step keeps "
+              "the parser's per-level valid_arg_found): the engine's find_pos IS the parser's get_pos; items widened by -o=v and multi-valued "
+              "options with exactly max values (C18_state_agreement_item18), inside such an occurrence Opt a (j+1) <-> PSOpt with j pending "
+              "values (C18_values_agree); values of single-valued positionals move pos_index exactly as the parser's counter, values of a "
+              "multi-valued positional keep Pos pos k <-> PSPos at the same counter, a subcommand name behind them dispatches iff THE LEVEL "
+              "REACHED sets subcommand_precedence_over_arg (C18_state_agreement_positionals); whole lines pline (C18_shadow_pline, "
+              "C18_flag_agreement: level, pos_index and valid_arg_found equal the parser's) and END TO END C18_candidate_accepted_pline "
+              "(supersedes the round-3 line theorem: C18_cline_is_pline), including levels with args_conflicts_with_subcommands "
+              "(left before their own arguments; behind one, a subcommand name is a positional value for both machines: "
+              "C18_args_conflict_levels; before/after witnesses of the finding: C18_args_conflict_before_after; complete_arg is told the flag: "
+              "C18_complete_arg_v_cut transfers every theorem about complete_arg, C18_no_subcommand_candidates_behind_args).  The candidate's hide "
+              "flag is the DEFINITIONAL one in every state - a hidden alias of a visible option is a hidden spelling "
+              "(C18_hide_flag_definitional, C18_hidden_rule_definitional).  ORDER: the final stable sort by (position of the tag, display "
+              "order) is modelled (complete_model_ord); C18_sort_final_spec: its result is a permutation of its input, sorted by the key, "
+              "stable; C18_order_is_permutation: the ordered result is a permutation of the unordered model's.  "
               "The model is tied to clap_complete by running the extracted model "
               "and the real crate on the same generated cases on every check; an independent python oracle splices each candidate "
               "into the line and has the real parser accept it.")
 LEVEL_NOTE = ("Trusted: Coq kernel, extraction, OCaml driver, Rust harness, generators; Command::build blocks and assert_app "
-              "shared with the parser model.  Differential/oracle only: ordering of candidates; agreement of the shadow parse's "
-              "state with the parser's OUTSIDE the class prefix_ok (multi-value options, terminators, hyphen values, flag "
-              "subcommands, the generated help subtree); acceptance on whole lines by the REAL parser; custom/path completers "
-              "not modelled.  Class boundaries kept as theorems with witnesses replayed on the real crate: require_equals "
+              "shared with the parser model.  Differential/oracle only: the sort data themselves (clap's display-order counter, headings, rendered argument names as tags: "
+              "stream `order` compares lists with the real crate); agreement of the shadow parse's "
+              "state with the parser's OUTSIDE the classes item18/pitems18/body18 (multi-valued options with fewer than max values "
+              "followed by another argument, terminators, hyphen values, require_equals, low-index multiples / allow_missing_positional, "
+              "a bounded multi-valued positional after its maximum, flag subcommands, inferred names, the generated help subtree); "
+              "acceptance on whole lines by the REAL parser; custom/path completers not modelled.  A value terminator is unknown to the "
+              "engine (C18_terminator_refuted: `p --opt a ; sub <TAB>` offers an option of the wrong level, replayed on the crate; "
+              "reported, oracle bails out on terminators).  Class boundaries kept as theorems with witnesses replayed on the real crate: require_equals "
               "(C18_require_equals_refuted: `p --opt <TAB>` offers a value the parser rejects with UnknownArgument); an option "
               "without long name but with a visible alias is neither recognised by the shadow parse (C18_same_long_refuted) nor "
               "offered (C18_complete_options_alias_refuted = known finding C18-alias-without-primary); --alias=<TAB> offers no values "
@@ -184,7 +211,7 @@ def find_sub(node, name):
 
 UNSAFE_CMD_FLAGS = {"allow_external_subcommands", "allow_missing_positional", "multicall"}
 # `args_conflicts_with_subcommands` is per level and so is the parser's "an argument was seen" flag: at a level that sets
-# it a subcommand name is recognised as long as no argument OF THAT LEVEL came before it (after one, the scan gives up).
+# it a subcommand name is recognised as long as no argument OF THAT LEVEL came before it (after one, it is a plain word).
 # `subcommand_precedence_over_arg` is a per-command setting (it is not propagated): at a level that sets it a word naming a
 # subcommand is that subcommand even while a multiple positional is being filled; the scan follows the level it is at.
 
@@ -261,7 +288,10 @@ def scan_prefix(root, words):
             continue
         s = find_sub(level, w)
         if s is not None and seen_arg and "args_conflicts_with_subcommands" in level["flags"]:
-            return None
+            # behind an argument of such a level the parser does not look for subcommands: the word is a plain word
+            # (a positional value, or an error of the prefix line - then CLEAN_PREFIX drops the case); the level reached
+            # is still this one (finding C18-args-conflict: the engine used to descend)
+            s = None
         if s is not None and (not in_pos or "subcommand_precedence_over_arg" in level["flags"]):
             in_pos = False
             seen_arg = False
@@ -289,9 +319,11 @@ def scan_prefix(root, words):
         i += 1
     if level["flags"] & UNSAFE_CMD_FLAGS:
         return None
-    if seen_arg and "args_conflicts_with_subcommands" in level["flags"]:
-        return None       # subcommand names are no valid continuation here; options still are, but keep it simple
-    return level, weak
+    # behind an argument of a level with args_conflicts_with_subcommands subcommand names are no valid continuation (third
+    # component): the parser answers ArgumentConflict, takes the name as the value of a positional, or answers UnknownArgument
+    # when the positional at the counter is last(true); no subcommand candidate may be offered there and none is required
+    nosubs = bool(seen_arg and "args_conflicts_with_subcommands" in level["flags"])
+    return level, weak, nosubs
 
 
 def decode_case(case):
@@ -327,7 +359,7 @@ def accept_oracle(case, impl):
     sc = scan_prefix(root, argv[start:index])
     if sc is None:
         return None
-    level, weak = sc
+    level, weak, nosubs = sc
     word = argv[index]
     acc = {}
     ids = {}
@@ -365,6 +397,11 @@ def accept_oracle(case, impl):
                         what = "option candidate without a leading dash"
             elif cid.startswith(b"command::"):
                 s = find_sub(level, v)
+                if nosubs:
+                    # behind an argument of a command whose arguments conflict with subcommands the parser does not look for
+                    # subcommands: it answers ArgumentConflict or UnknownArgument, or takes the word as a positional value
+                    what = "is a subcommand offered behind an argument of a command whose arguments conflict with subcommands " \
+                           "(the real parser: %s)" % acc.get(v)
                 if s is None or s["name"] != cid[9:]:
                     what = "does not name a subcommand of the level reached (%r)" % level["name"]
             else:
@@ -450,7 +487,7 @@ def accept_oracle(case, impl):
                        + ([b"-" + c.encode() for c in a.get("vsa", [])] if a.get("s") and word in (b"", b"-") else [])) \
                 else " [alias-without-primary]"
             return "visible option %r has a spelling extending %r but is not represented%s" % (a["id"], word, tag)
-    for s in level["subs"]:
+    for s in ([] if nosubs else level["subs"]):
         if s["hidden"]:
             continue
         if any(sp.startswith(word) for sp in [s["name"]] + s["va"]) and (b"command::" + s["name"]) not in seen_ids:
@@ -519,6 +556,10 @@ def arg_sx_x(a):
     s = gen_cmd.arg_sx(a)
     if a.get("x_pv"):
         s = s[:-1] + " (x-pv %s))" % " ".join("(%s %s)" % (hexs(v), "h" if h else "v") for v, h in a["x_pv"])
+    if a.get("x_ord") is not None:
+        s = s[:-1] + " (x-ord %d))" % a["x_ord"]
+    if a.get("x_heading") is not None:
+        s = s[:-1] + " (x-heading %s))" % hexs(a["x_heading"])
     return s
 
 
@@ -538,6 +579,8 @@ def cmd_sx_x(c):
         it.append("(set %s)" % " ".join(c["settings"]))
     if c.get("ext"):
         it.append("(ext %s)" % c["ext"])
+    if c.get("x_ord") is not None:
+        it.append("(x-ord %d)" % c["x_ord"])
     for a in c.get("args", []):
         it.append(arg_sx_x(a))
     for g in c.get("groups", []):
@@ -614,6 +657,67 @@ def gen_random(rng, ntrees, per_tree, mode, every_index=True, conventional=False
                     av.append(rng.choice(words))
                 out.append(case_line(mode, cmdtxt, av, i))
     return out
+
+
+HEADINGS = [b"Head", b"Zed", b"Options", b"Commands"]
+
+
+def order_decorate(rng, c, amap, smap, top=True):
+    """explicit sort data on EVERY argument and subcommand (the model's side table is keyed by the arg id resp. the
+    subcommand name: the same id / name gets the same display order and heading everywhere in one tree); small numbers, so
+    that ties - which the stable sort must leave in generation order - are frequent"""
+    # the names clap generates itself keep clap's defaults (999, no heading) wherever they occur: the table cannot tell a
+    # user-defined `help` subcommand of one level from the generated one of another
+    for a in c["args"]:
+        if a["id"] not in amap:
+            amap[a["id"]] = (999, None) if a["id"] in (b"help", b"version") else \
+                (rng.randrange(0, 4), rng.choice(HEADINGS) if rng.random() < 0.25 else None)
+        a["x_ord"], a["x_heading"] = amap[a["id"]]
+    for sc in c["subs"]:
+        if sc["name"] not in smap:
+            smap[sc["name"]] = 999 if sc["name"] == b"help" else rng.randrange(0, 4)
+        sc["x_ord"] = smap[sc["name"]]
+        order_decorate(rng, sc, amap, smap, False)
+
+
+def gen_order(rng, ntrees, per_tree):
+    """stream `order`: the candidates AS A LIST against the model with the final stable sort (complete_model_ord).  Lines that
+    walk through the generated `help` subcommand are left out (its subtree is rebuilt by clap with display orders of its own)"""
+    prof = gen_cmd.Profile(hyphen=0.2, flag_subs=0.0, invalid=0.0, env=0.0)
+    out = []
+    for _ in range(ntrees):
+        c = gen_cmd.gen_cmd(rng, prof)
+        decorate(rng, c, {})
+        order_decorate(rng, c, {}, {})
+        cmdtxt = cmd_sx_x(c)
+        longs, shorts, subs = [b"help", b"version"], ["h", "V"], [b"help"]
+        names_of(c, longs, shorts, subs)
+        for _ in range(per_tree):
+            argv = gen_cmd.gen_argv(rng, c, p_mutate=0.3, safe_p=0.7)
+            if len(argv) > 7:
+                argv = argv[:7]
+            words = [b"", b"-", b"--", b"--a", b"-h", b"h", b"s", b"p", b"pv", b"a,p"] + words_for(rng, longs, shorts, subs)
+            for i in range(1, len(argv) + 1):
+                av = list(argv)
+                if b"help" in av[:i]:
+                    continue
+                w = rng.choice([b"", b"", b"-", b"--"]) if rng.random() < 0.65 else rng.choice(words)
+                if i < len(av):
+                    av[i] = w
+                else:
+                    av.append(w)
+                out.append(case_line("dynorder", cmdtxt, av, i))
+    return out
+
+
+def project_order(r):
+    """the candidates in the order returned: lists, not multisets"""
+    head, _ = split_result(r)
+    if head.startswith("PANIC"):
+        return "PANIC"
+    if head.startswith("ok"):
+        return "ok " + " ".join("%s:%s" % (hexs(v), "h" if h else "v") for v, h in cands_of(head))
+    return head
 
 
 def h(b):
@@ -812,6 +916,19 @@ def shape(w):
     return "plain"
 
 
+def order_stats(cases):
+    """how often the final sort matters: cases with >= 2 candidates, and cases in which the sorted list differs from the
+    generation order (model driver: `dynorder` against `dyn`)"""
+    mbin = os.path.join(core.ROOT, "ocaml", "bin", "dynamic")
+    if not os.path.exists(mbin):
+        return {}
+    a = core.run_cases(mbin, cases, "C18.ordstat.a")
+    b = core.run_cases(mbin, ["(dyn" + c[len("(dynorder"):] for c in cases], "C18.ordstat.b")
+    two = sum(1 for x in a if x and x.count("(") >= 2)
+    diff = sum(1 for x, y in zip(a, b) if x != y)
+    return {"cases": len(cases), "at least two candidates": two, "sorted order differs from generation order": diff}
+
+
 def coverage(cases, tag):
     """ParseState (from the model driver's `dynstate` mode) x shape of the word under the cursor"""
     mbin = os.path.join(core.ROOT, "ocaml", "bin", "dynamic")
@@ -841,6 +958,7 @@ def streams(tier, rng):
         + gen_random(rng, 80 if quick else 700, 2, "dynaccept", conventional=True) \
         + gen_states(rng, tier, "dynaccept", 1 if quick else 2, 250 if quick else 3000) \
         + gen_pending("dynaccept") + gen_precedence("dynaccept") + gen_argsconflict("dynaccept")
+    ord_cases = gen_order(rng, 60 if quick else 600, 3)
     return [
         Stream("dyn", dyn_cases, oracle=total_oracle, area="dynamic", project=project, nontrivial=nontrivial,
                describe={"state x word-shape": coverage(dyn_cases, "dyn")}),
@@ -848,6 +966,8 @@ def streams(tier, rng):
                describe={"state x word-shape": coverage(st_cases, "states")}),
         Stream("accept", acc_cases, oracle=accept_oracle, area="dynamic", project=project, nontrivial=nontrivial,
                describe={"state x word-shape": coverage(acc_cases, "accept")}),
+        Stream("order", ord_cases, oracle=total_oracle, area="dynamic", project=project_order, nontrivial=nontrivial,
+               describe={"final sort": order_stats(ord_cases)}),
         Stream("paths", gen_paths(), oracle=total_oracle, area=None, nontrivial=lambda c, r: bool(r) and r.startswith("ok")),
     ]
 
